@@ -3,7 +3,7 @@
 From Coq Require Import String List NArith ZArith Bool Lia PeanoNat.
 From Coq Require Import Floats.SpecFloat.
 From VRL Require Import Base.Bytes Base.Value Base.Lit Model.DdNode Model.DdSearch
-  Proofs.DdSearchProofs Proofs.DdSearchNum Proofs.DdSearchRT.
+  Proofs.DdSearchProofs Proofs.DdSearchNum Proofs.DdSearchRT Proofs.DdSearchWild.
 Import ListNotations.
 Local Open Scope N_scope.
 
@@ -33,6 +33,7 @@ Section Safe.
     | NQuoted a _ => attr_ok a
     | NCmp a _ cv => attr_ok a && cmp_val_ok cv
     | NRange a lo li hi ui => attr_ok a && Bool.eqb li ui && bound_ok fok lo && bound_ok fok hi
+    | NWild a v => attr_ok a && wild_ok a v
     | _ => false
     end.
 
@@ -262,6 +263,7 @@ Section Leaves.
     - apply andb_true_iff in L as [A T]. apply clause_term; auto.
     - apply clause_quoted; auto.
     - apply andb_true_iff in L as [A T]. apply clause_prefix; auto.
+    - apply andb_true_iff in L as [A T]. apply clause_wild; auto.
   Qed.
 
   (* the text of a leaf with an explicit field, or of _exists_ / _missing_, starts with raw text and a colon *)
@@ -335,6 +337,11 @@ Section Leaves.
       + rewrite (default_attr attr _ D). rewrite <- app_assoc. cbn [app].
         destruct (Esc v T (42 :: rest) eq_refl) as [S M]. repeat split; auto.
         intros _. unfold multiterm_lookahead. rewrite (lex_term_escaped v (42 :: rest) T eq_refl). reflexivity.
+      + rewrite (explicit_attr attr _ A D). apply Colon. apply attr_ok_raw; exact A.
+    - (* wildcard *)
+      apply andb_true_iff in L as [A T]. cbn [to_lucene]. destruct (bytes_eqb attr DEFAULT_FIELD) eqn:D.
+      + rewrite (default_attr attr _ D). destruct (wild_start attr v rest A T D E) as (S & M & La).
+        repeat split; auto.
       + rewrite (explicit_attr attr _ A D). apply Colon. apply attr_ok_raw; exact A.
   Qed.
 End Leaves.
@@ -697,7 +704,7 @@ Section Main.
     - split; [apply leaf_QR; exact S | intros _; split; [apply leaf_IT; exact S | intros _; apply leaf_CL; exact S]].
     - split; [apply leaf_QR; exact S | intros _; split; [apply leaf_IT; exact S | intros _; apply leaf_CL; exact S]].
     - split; [apply leaf_QR; exact S | intros _; split; [apply leaf_IT; exact S | intros _; apply leaf_CL; exact S]].
-    - discriminate.
+    - split; [apply leaf_QR; exact S | intros _; split; [apply leaf_IT; exact S | intros _; apply leaf_CL; exact S]].
     - (* NOT *)
       cbn [DdSearchQuery.safe] in S. apply andb_true_iff in S as [S Sm]. apply andb_true_iff in S as [Nm NAm].
       apply negb_true_iff in Nm, NAm. destruct (IHn Sm) as [_ Hm]. destruct (Hm Nm) as [_ Hcl].
